@@ -270,13 +270,15 @@ func (s *socket) schedulePing() {
 
 // Resets ping timeout.
 func (s *socket) resetPingTimeout() {
-	utils.ClearTimeout(s.pingTimeoutTimer.Load())
-	s.pingTimeoutTimer.Store(utils.SetTimeout(func() {
+	// swap, then cancel what was replaced: two concurrent calls (onOpen and the
+	// transport's reader) each cancel the other's timer or their predecessor's,
+	// never leaving an armed timer unreferenced
+	utils.ClearTimeout(s.pingTimeoutTimer.Swap(utils.SetTimeout(func() {
 		if s.ReadyState() == "closed" {
 			return
 		}
 		s.OnClose("ping timeout")
-	}, s.resetPingTimeoutDuration()))
+	}, s.resetPingTimeoutDuration())))
 }
 func (s *socket) resetPingTimeoutDuration() time.Duration {
 	if s.protocol == 3 {
